@@ -6,9 +6,7 @@
    correspondence check): the packages' argv tokenisation, their built-in
    setters beyond the integer / bool / duration grammars of Text/ParseText.v
    (floats, complex), pflag's CSV quoting, and parse.StringSlice / splitMap
-   beyond the simple alphabet.  flag_defaults_are_template is named _partial:
-   the default is characterised as GetField's result, not yet related to a
-   positional reading of the template value.
+   beyond the simple alphabet.
 
    Vocabulary (Sources/Flags.v): p - package (std flag / pflag); ne, te -
    NameConfig casings; fs, tmpl - config type and template value;
@@ -21,7 +19,8 @@ From Coq Require Import List NArith ZArith Bool.
 Open Scope string_scope.
 Open Scope list_scope.
 From Dials Require Import Base.Outcome Base.Runes Reflect.Ty Reflect.Ptrify Stack.Overlay Text.ParseText
-  Sources.Flatten Sources.FlattenSpec Sources.Env Sources.EnvSpec Sources.Flags Sources.FlagsProofs Sources.FlagsFacts.
+  Sources.Flatten Sources.FlattenSpec Sources.Env Sources.EnvSpec Sources.Flags Sources.FlagsProofs Sources.FlagsFacts
+  Sources.EnvGuards Sources.FlagsDefaults.
 Import ListNotations.
 
 (* Every leaf's flag is named by its source-specific tag if present, else by
@@ -37,9 +36,26 @@ Theorem flag_names : forall p ne te fs tmpl regs,
           regs (paths (flag_keys p fs)).
 Proof. exact flag_names_l. Qed.
 
-(* The advertised default of every registered flag is the (canonically
-   rendered) template value of its leaf as transform.GetField finds it. *)
-Theorem flag_defaults_are_template_partial : forall p ne te fs tmpl regs,
+(* The default every flag is registered with is the template's value of its
+   leaf, read POSITIONALLY from the template (tl_fields: the leaves of the
+   config type in flattening order; a nil pointer on the way, or a nil user
+   pointer, means "no value" and the flag gets the zero value of the leaf's
+   concrete type) - i.e. transform.GetField's walk by field names arrives at
+   exactly the leaf's position, for config types without interface fields,
+   **struct fields and alias tags whose structs have distinct field names. *)
+Theorem flag_defaults_are_template : forall p ne te fs tmpl regs,
+  cfg_ok fs = true -> names_ok fs = true -> alias_free (flag_alias_keys p) fs = true ->
+  flag_regs p ne te fs tmpl = Ok regs ->
+  Forall2 (fun r o => rg_init r = match o with
+                                  | Some v => v
+                                  | None => zero (strip_ptr_ty (lf_ty (rg_leaf r)))
+                                  end)
+          regs (tl_fields fs (Some tmpl)).
+Proof. exact flag_defaults_are_template_l. Qed.
+
+(* ... and what FlagSet.VisitAll advertises is the canonical rendering of that
+   default, for every registered flag. *)
+Theorem flag_advertised_is_default : forall p ne te fs tmpl regs,
   flag_regs p ne te fs tmpl = Ok regs ->
   Forall (fun r => rg_init r = template_value fs tmpl (rg_leaf r) /\
                    forall k, rg_kind r = Some k ->
@@ -82,6 +98,12 @@ Theorem flag_accumulate : forall native dflt texts wss,
   exists st', set_all (FkStrSlice native) (mkFstate dflt true) texts = Ok st' /\
               st_val st' = VList (map VStr (concat wss)).
 Proof. exact flag_accumulate_l. Qed.
+
+Theorem flag_accumulate_ints : forall sg b dflt texts vss,
+  Forall2 (fun t vs => int_slice sg b t = Ok vs) texts vss -> texts <> [] ->
+  exists st', set_all (FkIntSlice sg b) (mkFstate dflt true) texts = Ok st' /\
+              st_val st' = VList (concat vss).
+Proof. exact flag_accumulate_ints_l. Qed.
 
 (* Maps, sets and maps of slices: the first occurrence replaces, later ones merge. *)
 Theorem flag_accumulate_maps : forall st text,
@@ -138,7 +160,9 @@ Theorem flag_netip_pre_fix_refuted :
 Proof. exact flag_netip_pre_fix_refuted_l. Qed.
 
 Print Assumptions flag_names.
-Print Assumptions flag_defaults_are_template_partial.
+Print Assumptions flag_defaults_are_template.
+Print Assumptions flag_advertised_is_default.
+Print Assumptions flag_accumulate_ints.
 Print Assumptions flag_only_visited_set.
 Print Assumptions flag_state_is_fold.
 Print Assumptions flag_accumulate.
